@@ -250,3 +250,8 @@ def generic_layer(name: str, module: str, seed: int, n_cases: int, mult: int, ex
 def timed_layer(seed: int, n_cases: int) -> Dict[str, Any]:
     """request files and price tables through the real pre-step update functions (C11)"""
     return generic_layer("timed", "timed", seed, n_cases, 49979687)
+
+
+def shift_layer(seed: int, n_cases: int) -> Dict[str, Any]:
+    """shift tables and human drivers through the real driver phase and dispatcher (C20)"""
+    return generic_layer("shift", "shift", seed, n_cases, 86028121)
